@@ -1252,8 +1252,17 @@ func cliChecks(r *vlib.Run, mode string, trial int, rng *rand.Rand, sc *scenario
 	pfile := filepath.Join(sc.dir, fmt.Sprintf("req-%s.txt", s.name))
 	os.WriteFile(pfile, []byte(ptxt), 0o600)
 	common := []string{"-a", sc.collAddr, "-tls_skip_verify", "-timeout", "20s", "-logtostderr"}
+	// The flags form separates path nodes by "/" or, by seed, by another single
+	// code point (one, two and three bytes long in UTF-8); no element name, key
+	// name or key value drawn by the generator contains any of them.
+	delim := []string{"/", "/", ".", "·", "→"}[rng.Intn(5)]
+	flagQ := make([]string, len(qflags))
+	for i, q := range qflags {
+		flagQ[i] = strings.ReplaceAll(q, "/", delim)
+	}
+	r.Count("cli_flags_delimiter_bytes_"+strconv.Itoa(len(delim)), 1)
 	forms := map[string][]string{
-		"flags":      {"-t", s.name, "-q", strings.Join(qstrs, ","), "-qt", "once"},
+		"flags":      {"-t", s.name, "-q", strings.Join(flagQ, ","), "-qt", "once", "-d", delim},
 		"proto":      {"-proto", ptxt},
 		"proto_file": {"-proto_file", pfile},
 	}
@@ -1300,12 +1309,17 @@ func cliChecks(r *vlib.Run, mode string, trial int, rng *rand.Rand, sc *scenario
 						got["?"+line] = ""
 						continue
 					}
+					// The single display joins path nodes by the configured delimiter.
+					key := line[:i]
+					if form == "flags" && delim != "/" {
+						key = strings.ReplaceAll(key, delim, "/")
+					}
 					// A leaf matched by several (overlapping) query paths may be sent
 					// more than once; only a different value for the same path is a finding.
-					if prev, dup := got[line[:i]]; dup && prev != line[i+2:] {
+					if prev, dup := got[key]; dup && prev != line[i+2:] {
 						got["conflicting:"+line] = ""
 					}
-					got[line[:i]] = line[i+2:]
+					got[key] = line[i+2:]
 				}
 			}
 			results[form] = got
@@ -1461,7 +1475,7 @@ func cliChecks(r *vlib.Run, mode string, trial int, rng *rand.Rand, sc *scenario
 	pfileP := filepath.Join(sc.dir, fmt.Sprintf("req-poll-%s.txt", s.name))
 	os.WriteFile(pfileP, []byte(ptxtP), 0o600)
 	pollForms := map[string][]string{
-		"flags":      {"-t", s.name, "-q", strings.Join(qstrs, ","), "-qt", "polling"},
+		"flags":      {"-t", s.name, "-q", strings.Join(flagQ, ","), "-qt", "polling", "-d", delim},
 		"proto":      {"-proto", ptxtP},
 		"proto_file": {"-proto_file", pfileP},
 	}
